@@ -302,7 +302,7 @@ def lexLoop (o : Oracle M) (obj : Nat → M → Int) (mx : Mixin) (strat : Strat
     Outcome (Option (M × List Int)) × Solver M
   | [], _, last, vals, s =>
     (match last with
-     | none => (.emptyGoals, s)
+     | none => (.emptyGoals, s.pop)                        -- `_cleanup`, then `model` is unbound
      | some m => (.done (some (m, vals)), s.pop))          -- `_cleanup` (repair of F24a)
   | (gi, g) :: rest, cd, _, vals, s =>
     match lexStep o obj mx strat g gi cd fuel s with
@@ -361,7 +361,7 @@ def paretoOuter (o : Oracle M) (obj : Nat → M → Int) (mx : Mixin) (goals : L
 def pareto (o : Oracle M) (obj : Nat → M → Int) (mx : Mixin) (goals : List (Nat × Goal))
     (fuel : Nat) (s : Solver M) : Outcome (List (M × List Int)) × Solver M :=
   if goals.any (fun (_, g) => !g.supported) then (.keyErr, s)      -- OptPareto.__init__, before _setup
-  else if goals.isEmpty then (.emptyGoals, s.push)
+  else if goals.isEmpty then (.emptyGoals, s.push.push)           -- `objs[0]` after _setup, _pareto_setup
   else paretoOuter o obj mx goals fuel fuel [] [] s.push
 
 end Search
